@@ -586,6 +586,8 @@ class ConvolutionCollection:
             raise RuntimeError("Must initialize integrals before calling")
         assert input.flags.c_contiguous
         assert output.flags.c_contiguous
+        assert input.dtype == np.float64
+        assert output.dtype == np.float64
         if fwd:
             assert input.shape == (self.atco_inp.nao, self.nalpha), (
                 input.shape,
@@ -668,6 +670,8 @@ class ConvolutionCollectionK(ConvolutionCollection):
             raise RuntimeError("Must initialize integrals before calling")
         assert input.flags.c_contiguous
         assert output.flags.c_contiguous
+        assert input.dtype == np.float64
+        assert output.dtype == np.float64
         assert input.shape == (atco_inp.nao, self.nalpha)
         assert output.shape == (atco_out.nao, self.nalpha)
         libcider.multiply_atc_integrals_vk(
